@@ -420,11 +420,50 @@ def run_query(model, q: str, state_vals: list[float]) -> Any:  # noqa: ANN001
             return model.get_stoichiometries().fillna(0).to_dict()
         if q == "get_derived_variable_names":
             return sorted(model.get_derived_variable_names())
+        # classification and listing getters no other query goes through (each has its own walk over the
+        # content or reads the cache's classification): compared as sets, their order is free
+        if q == "get_unused_parameters":
+            return sorted(model.get_unused_parameters())
+        if q == "get_derived_parameters":
+            return sorted(model.get_derived_parameters())
+        if q == "get_derived_variables":
+            return sorted(model.get_derived_variables())
+        if q == "get_raw_readouts":
+            return sorted(model.get_raw_readouts())
+        if q == "get_surrogate_reaction_names":
+            return sorted(model.get_surrogate_reaction_names())
+        if q == "get_arg_names":
+            flags = [
+                "include_time", "include_variables", "include_parameters", "include_derived_parameters", "include_derived_variables",
+                "include_reactions", "include_surrogate_variables", "include_surrogate_fluxes", "include_readouts",
+            ]
+            out = {"all": sorted(model.get_arg_names(**dict.fromkeys(flags, True)))}
+            for f in flags:
+                out[f] = sorted(model.get_arg_names(**{g: g == f for g in flags}))
+            return out
+        if q == "stoichiometries_of_variable":
+            names = model.get_variable_names()
+            st = dict(zip(names, state_vals))
+            out = {}
+            for v in names:
+                try:
+                    out[v] = dict(model.get_stoichiometries_of_variable(v, st, 0.75))
+                except Exception as e:  # noqa: BLE001
+                    out[v] = ("exc", type(e).__name__)
+                try:
+                    out[v + ":raw"] = sorted(model.get_raw_stoichiometries_of_variable(v))
+                except Exception as e:  # noqa: BLE001
+                    out[v + ":raw"] = ("exc", type(e).__name__)
+            return out
         raise ValueError(q)
     except Exception as e:  # noqa: BLE001
         return ("exc", type(e).__name__)
 
 
+LISTING_QUERIES = [
+    "get_unused_parameters", "get_derived_parameters", "get_derived_variables", "get_raw_readouts",
+    "get_surrogate_reaction_names", "get_arg_names", "stoichiometries_of_variable",
+]
 STATE_VALS = [0.37, 1.9, 0.81, 2.6, 1.2, 0.55, 1.7, 0.9, 2.2, 0.45, 1.1, 0.66]
 
 
@@ -444,7 +483,7 @@ def observe(model) -> dict:  # noqa: ANN001
             **{f"{n}:{fx}": sorted(st) for n, sg in model.get_raw_surrogates(as_copy=False).items() for fx, st in sg.stoichiometries.items()},
         },
     }
-    for q in [*QUERIES, "get_args@state", "get_rhs@state", "get_stoichiometries", "get_derived_variable_names"]:
+    for q in [*QUERIES, "get_args@state", "get_rhs@state", "get_stoichiometries", "get_derived_variable_names", *LISTING_QUERIES]:
         obs[q] = run_query(model, q, STATE_VALS)
     return obs
 
